@@ -86,6 +86,7 @@ def run(tier, seed, replay=None):
     for mx in (3, 10, 5):
         for delta in (-1, 0, 1):
             proj_specs.append(([2, mx + delta], [], 0))
+    proj_specs += [([2], [], 11), ([2, 11], [], 14)]          # more cycles than any "show the first N" limit
     proj_specs += [([2], ["c"], 0), ([2], ["w"], 0), ([2], ["w", "c"], 0), ([2], [], 1), ([2], [], 2), ([11], ["c"], 2), ([2], [], 0),
                    ([10, 10, 11], ["c", "c"], 1)]
     flag_axis = []
@@ -93,7 +94,9 @@ def run(tier, seed, replay=None):
                ["complexity", "deadcode", "deps"], ["complexity", "deadcode", "clones", "deps"], ["circular"], ["clones", "deps"]]
     for sel in selects:
         for mc in (None, 3, 10):
-            for cfg in (None, {"max_complexity": 5}, {"max_complexity": 0}):
+            # besides the gate key, keys that must NOT influence the gate: display filters and orders of the same configuration file
+            for cfg in (None, {"max_complexity": 5}, {"max_complexity": 0}, {"output_sort_by": "name"}, {"output_min_complexity": 20},
+                        {"max_complexity": 5, "output_sort_by": "name", "output_min_complexity": 8}, {"output_sort_by": "risk", "show_details": True}):
                 for allow_dead in (False, True):
                     for maxcyc in (None, 1, 2):
                         for allow_circ in (False, True):
@@ -129,6 +132,10 @@ def run(tier, seed, replay=None):
             picks = flag_axis[(pi * per_project) % len(flag_axis):][:per_project]
             if len(picks) < per_project:
                 picks += flag_axis[:per_project - len(picks)]
+            if ncyc > 2:
+                # the ratchet use of --max-cycles on a project with many cycles: exactly at, below and above the number of cycles, and at round numbers
+                picks = [(sel, None, None, False, mcyc, ac) for sel in (["deps"], ["complexity", "deps"], ["circular"]) for mcyc in (None, 0, 9, 10, ncyc - 1, ncyc, ncyc + 1)
+                         for ac in (False, True)]
             lines, meta = [], []
             for (sel, mc, cfg, allow_dead, maxcyc, allow_circ) in picks:
                 args = ["check", "--skip-clones"] if sel is None else ["check", "--select", ",".join(sel)]
@@ -146,6 +153,11 @@ def run(tier, seed, replay=None):
                         if "min_severity" in cfg:
                             f.write("[dead_code]\nmin_severity = \"%s\"\n" % cfg["min_severity"])
                             gate = cfg["min_severity"]
+                        outkeys = [("sort_by", json.dumps(cfg["output_sort_by"])) for _ in [0] if "output_sort_by" in cfg] + \
+                                  [("min_complexity", str(cfg["output_min_complexity"])) for _ in [0] if "output_min_complexity" in cfg] + \
+                                  [("show_details", "true") for _ in [0] if cfg.get("show_details")]
+                        if outkeys:
+                            f.write("[output]\n" + "".join("%s = %s\n" % kv for kv in outkeys))
                     args += ["--config", cpath]
                 if allow_dead:
                     args.append("--allow-dead-code")
@@ -229,6 +241,18 @@ def run(tier, seed, replay=None):
         want = C.driver_batch(err_lines) if os.path.exists(C.driver_path()) else []
         for line, w, (args, rc, err, failed) in zip(err_lines, want, err_meta):
             exp_rc = 0 if w == "1" else 1
+            clones_on = ("clones" in args[2].split(",")) if "--select" in args else ("--skip-clones" not in args)
+            if exp_rc == 0 and clones_on and failed["clones"]:
+                # the property (specExitZero): a selected analysis that could not run fails the gate — also the clone analysis
+                if rc == 0:
+                    k = C.classify(PID, {"kind": "clone-analysis-error-ignored"})
+                    if k:
+                        res.known_finding(k, "(`pyscn %s no_such_dir` exits 0)" % " ".join(args))
+                        continue
+                    res.violation("pyscn %s: exit 0 although the clone analysis was selected and could not run" % " ".join(args),
+                                  {"signature": {"kind": "clone-analysis-error-ignored"}, "flags": args, "exit": rc, "stderr": err[-600:]})
+                    continue
+                exp_rc = 1
             hist["exit0" if rc == 0 else "exit1"] += 1
             hist["analysis_failed_runs"] = hist.get("analysis_failed_runs", 0) + (1 if any(failed.values()) else 0)
             nontrivial.add(line + "|err")
@@ -244,6 +268,46 @@ def run(tier, seed, replay=None):
             nruns += 1
             if rc != 1:
                 res.violation("pyscn %s: exit %d although the configuration file does not exist" % (" ".join(args), rc), {"flags": args, "exit": rc, "stderr": err[-400:]})
+        # ---- "the same violations that pyscn analyze reports": projects on which the two commands could pick DIFFERENT files ------------------------------
+        big = "def big(a):\n" + "".join("    if a == %d:\n        return %d\n" % (i, i) for i in range(12)) + "    return 0\n"
+        fs_cases = [
+            ("cycle-through-test-file", {"a.py": "import test_b\nA = 1\n", "test_b.py": "import a\nB = 2\n"}, ["--select", "deps"], "deps"),
+            ("cycle-through-module-named-venv", {"a.py": "import venv\nA = 1\n", "venv.py": "import a\nB = 2\n"}, ["--select", "deps"], "deps"),
+            ("cycle-in-subpackage", {"pkg/__init__.py": "", "pkg/x.py": "from pkg import y\n", "pkg/y.py": "from pkg import x\n"}, ["--select", "deps"], "deps"),
+            ("config-exclude-patterns", {"ok.py": "def ok(a):\n    return a\n", "gen/big.py": big, ".pyscn.toml": "[analysis]\nexclude_patterns = [\"gen/*\"]\n"}, ["--select", "complexity"], "complexity"),
+            ("complex-function-in-test-file", {"ok.py": "def ok(a):\n    return a\n", "test_big.py": big}, ["--select", "complexity"], "complexity"),
+            ("complex-function-in-hidden-dir", {"ok.py": "def ok(a):\n    return a\n", ".hidden/big.py": big}, ["--select", "complexity"], "complexity"),
+            ("complex-function-in-stub", {"ok.py": "def ok(a):\n    return a\n", "big.pyi": big}, ["--select", "complexity"], "complexity"),
+            ("dead-code-in-test-file", {"ok.py": "def ok(a):\n    return a\n", "test_dead.py": "def t(a):\n    return a\n    a = 1\n"}, ["--select", "deadcode"], "deadcode"),
+        ]
+        for title, files, flags, which in fs_cases:
+            froot = os.path.join(tmp, "fs_" + title)
+            for fn, text in files.items():
+                pth = os.path.join(froot, "proj", fn)
+                os.makedirs(os.path.dirname(pth), exist_ok=True)
+                with open(pth, "w") as f:
+                    f.write(text)
+            rc, out, err = C.pyscn(["check"] + flags + ["proj"], cwd=froot)
+            rc2, data, err2 = C.pyscn_json(["proj"], froot, extra=["--select", {"deps": "deps", "complexity": "complexity", "deadcode": "deadcode"}[which], "--min-complexity", "1"])
+            nruns += 2
+            if data is None:
+                res.violation("analyze produced no report on the file-set case %s: %s" % (title, err2[-200:]), {"files": files})
+                continue
+            if which == "deps":
+                viol = ((data["system"]["DependencyAnalysis"].get("CircularDependencies") or {}).get("TotalCycles") or 0) > 0
+            elif which == "complexity":
+                viol = any(f["Metrics"]["Complexity"] > 10 for f in data["complexity"]["Functions"] or [])
+            else:
+                viol = any(x["severity"] == "critical" for fl in (data["dead_code"].get("files") or []) for fn_ in fl["functions"] for x in fn_["findings"])
+            nontrivial.add("fs|" + title)
+            if (rc != 0) != viol:
+                sig = {"kind": "check-vs-analyze-files", "case": title}
+                k = C.classify(PID, sig)
+                msg = "C19: `pyscn check %s proj` exits %d, but `pyscn analyze` on the same directory reports %s gated violation (%s)" % (" ".join(flags), rc, "a" if viol else "no", title)
+                if k:
+                    res.known_finding(k, "(%s)" % msg)
+                else:
+                    res.violation(msg, {"signature": sig, "files": files, "flags": flags, "check_exit": rc, "analyze_has_violation": viol, "stderr": err[-400:]})
         # the excluded point of C19_gate: a negative --max-cycles
         root = os.path.join(tmp, "neg")
         write_project(os.path.join(root, "proj"), [2], [], 0)
